@@ -489,6 +489,8 @@ void HttpRequest::read()
 	}
 
 	_path = Url::decode(_res.substring(0, pathend));
+	if ((int)strlen(*_path) < _path.length()) // an encoded NUL (or a broken escape) ends the path, as it does for every consumer of the C string
+		_path = _path.substring(0, (int)strlen(*_path));
 
 	if(_path.contains(".."))
 		_path = _path.replace("..", "");
